@@ -111,7 +111,7 @@ structure St where
 deriving Repr
 
 inductive Ev
-  | handed (b : BD)                       -- the strategy called importBlock
+  | handed (b : BD) (parentKnown : Bool)  -- the strategy called importBlock
   | exec (b : BD) (parentKnown : Bool)    -- the importer went on to execute the block (handleBlock)
   | fin (b : BD)                          -- SetFinalisedHash
 deriving Repr
@@ -126,13 +126,13 @@ def newIncomplete (st : St) (b : BD) : St :=
 
 /-- `blockImporter.importBlock` over the environment of the harness -/
 def importBlock (st : St) (b : BD) : St × List Ev × Outcome :=
-  if st.known.contains b.stated then (st, [.handed b], .ok)
+  let pk := st.known.contains b.parent
+  if st.known.contains b.stated then (st, [.handed b pk], .ok)
   else
-    let pk := st.known.contains b.parent
-    if b.hasBody && !pk then (st, [.handed b, .exec b false], .errParent)
+    if b.hasBody && !pk then (st, [.handed b pk, .exec b false], .errParent)
     else
       let st1 : St := if b.hasBody then { st with known := b.id :: st.known } else st
-      let ev1 : List Ev := if b.hasBody then [.handed b, .exec b true] else [.handed b]
+      let ev1 : List Ev := if b.hasBody then [.handed b pk, .exec b true] else [.handed b pk]
       if b.just then
         if st1.known.contains b.id then ({ st1 with fin := max st1.fin b.num }, ev1 ++ [.fin b], .ok)
         else (st1, ev1, .errFin)
